@@ -533,7 +533,12 @@ Definition bi_complex (sp:span) (argv:list value) : Comp value :=
     | Some (ar, ai, ac), Some (br, bi, bc) =>
         Ret (VComplex (if bc then fsub ar bi else ar) (if ac then fadd br ai else br))
     | _, _ => raise c_arith sp end
-  else check_type sp vs is_str ;;; check_arity sp (length vs) [1%nat] ;;; raise c_unmodelled sp.
+  else check_type sp vs is_str ;;; check_arity sp (length vs) [1%nat] ;;;
+       match vs with
+       | [VStr s] =>          (* complex(text with every "i" written "j") - so "inf" and "infinity" in lower case never get through *)
+           match FloatText.parse_complex_text (map (fun c => if N.eqb c 105 then 106%N else c) s) with
+           | FloatText.CComplex re im => Ret (VComplex re im) | FloatText.CBad => raise c_value sp | FloatText.CUnmodelled => raise c_unmodelled sp end
+       | _ => raise c_unmodelled sp end.
 
 (* ---------- string.py ---------- *)
 Fixpoint is_prefix (p l:list N) : bool := match p, l with [], _ => true | x :: p', y :: l' => N.eqb x y && is_prefix p' l' | _, [] => false end.
